@@ -30,9 +30,13 @@ func (b *buffer) currentTag() Tag {
 	return b.tag[b.pos]
 }
 
-// nextTag returns the next tag in tagBuffer
+// nextTag returns the next tag in tagBuffer, or the zero Tag when there is
+// none (slots at and beyond len hold tags left behind by earlier decodes).
 func (b *buffer) nextTag() Tag {
-	return b.tag[b.pos+1]
+	if b.pos+1 < b.len {
+		return b.tag[b.pos+1]
+	}
+	return Tag{}
 }
 
 // nextTag increments the position by 1
